@@ -20,7 +20,7 @@ FCH, TCH, DF, DT = 16, 4, 2.0, 1.0
 
 SIGNALS = ['gauss_drift', 'box_sine', 'array_forms', 'scalar_forms', 'int_path_t', 'int_f', 'smear', 'all_flags', 'smear_arrays', 'pulse_phase']
 RANGES = ['none', 'inside', 'clip_low', 'clip_high', 'above', 'below', 'single', 'reversed']
-BAD = ['bad_shape', 'bad_type']
+BAD = ['bad_shape', 'bad_type', 'bad_cadence']
 
 
 def mk_frame(prior, asc, seed, wd):
@@ -75,6 +75,8 @@ def signal_args(fr, name):
         # caller-owned float64 ndarrays for every component that accepts one
         return dict(path=np.array([f(9), f(9) + 1.5, f(10) + 0.5, f(12), f(12) + 0.25]), t_profile=np.array([1.0, 0.5, 2.0, 1.5]),
                     f_profile=stg.gaussian_f_profile(2.5), bp_profile=None, doppler_smearing=True, smearing_subsamples=3)
+    if name == 'bad_cadence':
+        return {}
     if name == 'bad_shape':
         return dict(path=f(5), t_profile=[1.0, 2.0], f_profile=stg.gaussian_f_profile(3.0))
     if name == 'bad_type':
@@ -144,13 +146,23 @@ def inject(fr, step, V, wd, check=True, ctrl_noise=None):
     rng_ = range_of(fr, rname)
     tag = '%s @ %s' % (sname, rname)
     try:
-        sig = fr.add_signal(bounding_f_range=rng_, **args)
+        if sname == 'bad_cadence':
+            # the frame is the SECOND member of a cadence whose injection is rejected for it (time-profile array sized for the
+            # first member only): the rejected injection must leave this frame exactly as it was
+            import setigen as stg
+            other = stg.Frame(fchans=fr.fchans, tchans=fr.tchans + 1, df=fr.df, dt=fr.dt, fch1=fr.fch1, ascending=fr.ascending,
+                              seed=5, t_start=fr.t_start - 100.0)
+            stg.Cadence([other, fr]).add_signal(stg.constant_path(fr.get_frequency(5), 0.3), np.ones(fr.tchans + 1),
+                                               stg.gaussian_f_profile(3.0))
+            sig = np.zeros(fr.shape)
+        else:
+            sig = fr.add_signal(bounding_f_range=rng_, **args)
     except Exception as e:
         if sname in BAD:
             if check:
                 if not np.array_equal(fr.data, before, equal_nan=True) or _snap_nonoise(fr) != s0:
                     V('rejected_call_changed_state', '%s: rejected with %s but the frame changed' % (tag, type(e).__name__))
-                want = ValueError if sname == 'bad_shape' else TypeError
+                want = TypeError if sname == 'bad_type' else ValueError
                 if not isinstance(e, want):
                     V('rejection_type', '%s raised %s, expected %s' % (tag, type(e).__name__, want.__name__))
             return None
